@@ -176,8 +176,9 @@ Qed.
 Section SchedProofs.
   Context {S : Type}.
   Variable cb : S -> nat -> cell Z -> S.
+  Variable lid : nat -> nat.          (* the id of the link registered for position i *)
 
-  Definition cbf (s : S) (p : nat * outcome Z) : S := cb s (fst p) (cell_of (snd p)).
+  Definition cbf (s : S) (p : nat * outcome Z) : S := cb s (lid (fst p)) (cell_of (snd p)).
 
   Fixpoint wf_evs (n : nat) (used : list nat) (evs : list ev) : Prop :=
     match evs with
@@ -186,11 +187,12 @@ Section SchedProofs.
     | Run :: r => wf_evs n used r
     end.
 
+  (* n distinct inputs: input i carries exactly one link, with id lid i, until it is notified *)
   Record Inv (n : nat) (used : list nat) (q : list (nat * outcome Z)) (m : mach S) : Prop := {
     inv_queue : queue m = map fst q;
     inv_nodup : NoDup (map fst q);
-    inv_queued : forall i o, In (i, o) q -> ins m i = mkInput (cell_of o) true true;
-    inv_fresh : forall i, i < n -> ~ In i used -> ins m i = mkInput cempty true false;
+    inv_queued : forall i o, In (i, o) q -> ins m i = mkP (cell_of o) [lid i] true;
+    inv_fresh : forall i, i < n -> ~ In i used -> ins m i = mkP cempty [lid i] false;
     inv_used : forall i, In i (map fst q) -> In i used
   }.
 
@@ -216,32 +218,42 @@ Section SchedProofs.
     - intros j Hj. rewrite map_app in Hj. apply in_app_or in Hj as [Hj|[<-|[]]]; [right; now apply Hu|now left].
   Qed.
 
-  Lemma notify_fold : forall q m, NoDup (map fst q) ->
-    (forall i o, In (i, o) q -> ins m i = mkInput (cell_of o) true true) ->
-    let m' := fold_left (notify cb) (map fst q) m in
-    comb m' = fold_left cbf q (comb m) /\ queue m' = queue m /\
+  (* one link: it is called, nothing is left, the notifier is not scheduled again *)
+  Lemma notify_single (m : mach S) i c k : ins m i = mkP c [k] true ->
+    notify cb m i = mkMach (upd (ins m) i (mkP c [] false)) (queue m) (cb (comb m) k c).
+  Proof. intros H. unfold notify. rewrite H. cbn. rewrite Nat.eqb_refl. reflexivity. Qed.
+
+  Lemma drain_nil fuel (m : mach S) : queue m = [] -> drain cb fuel m = m.
+  Proof. intros H. destruct fuel; cbn; [reflexivity|now rewrite H]. Qed.
+
+  Lemma drain_queue : forall q (m : mach S) fuel, length q <= fuel -> queue m = map fst q -> NoDup (map fst q) ->
+    (forall i o, In (i, o) q -> ins m i = mkP (cell_of o) [lid i] true) ->
+    let m' := drain cb fuel m in
+    comb m' = fold_left cbf q (comb m) /\ queue m' = [] /\
     (forall j, ~ In j (map fst q) -> ins m' j = ins m j).
   Proof.
-    induction q as [|[i o] q IH]; intros m Hn Hq; cbn.
-    - repeat split; reflexivity.
-    - inversion Hn as [|? ? Hni Hr]; subst.
-      specialize (IH (notify cb m i) Hr).
-      assert (forall j o', In (j, o') q -> ins (notify cb m i) j = mkInput (cell_of o') true true) as Hq'.
-      { intros j o' Hin. unfold notify; cbn.
-        rewrite upd_other. - apply Hq. now right.
-        - intros ->. apply Hni. change i with (fst (i, o')). now apply in_map. }
-      destruct (IH Hq') as (Hc & Hqu & Hins). split; [|split].
-      + rewrite Hc. unfold notify at 1; cbn. rewrite (Hq i o) by now left. reflexivity.
-      + rewrite Hqu. reflexivity.
-      + intros j Hj. rewrite Hins by tauto. unfold notify; cbn. apply upd_other. intros ->. tauto.
+    induction q as [|[i o] q IH]; intros m fuel Hf Hqm Hn Hq; cbn in Hqm |- *.
+    - rewrite (drain_nil fuel m Hqm). repeat split; assumption.
+    - destruct fuel as [|fuel]; [cbn in Hf; lia|]. cbn [drain]. rewrite Hqm.
+      inversion Hn as [|? ? Hni Hr]; subst.
+      rewrite (notify_single _ i (cell_of o) (lid i)) by (cbn; apply Hq; now left). cbn [ins queue comb].
+      match goal with |- context [drain cb fuel ?m1] => specialize (IH m1 fuel) end.
+      destruct IH as (Hc & Hqu & Hins); cbn [ins queue comb]; try assumption; [cbn in Hf; lia|reflexivity| |].
+      + intros j o' Hin. rewrite upd_other. * apply Hq. now right.
+        * intros ->. apply Hni. change i with (fst (i, o')). now apply in_map.
+      + split; [|split].
+        * rewrite Hc. reflexivity.
+        * exact Hqu.
+        * intros j Hj. rewrite Hins by tauto. apply upd_other. intros ->. tauto.
   Qed.
 
-  Lemma run_inv n used q m : Inv n used q m ->
-    Inv n used [] (run cb m) /\ comb (run cb m) = fold_left cbf q (comb m).
+  Lemma run_inv n N used q m : Inv n used q m ->
+    Inv n used [] (run cb N m) /\ comb (run cb N m) = fold_left cbf q (comb m).
   Proof.
-    intros [Hq Hn Hqd Hf Hu]. unfold run. rewrite Hq.
-    destruct (notify_fold q (mkMach (ins m) [] (comb m)) Hn Hqd) as (Hc & Hqu & Hins). cbn in *.
-    split; [|exact Hc]. constructor; cbn.
+    intros [Hq Hn Hqd Hf Hu]. unfold run.
+    destruct (drain_queue q m (length (queue m) + N)) as (Hc & Hqu & Hins); try assumption.
+    { rewrite Hq, map_length. lia. }
+    split; [|exact Hc]. constructor.
     - exact Hqu.
     - constructor.
     - intros ? ? [].
@@ -249,14 +261,14 @@ Section SchedProofs.
     - intros ? [].
   Qed.
 
-  Lemma events_comb n : forall evs used q m, Inv n used q m -> wf_evs n used evs ->
-    comb (fold_left (step cb) evs m) = fold_left cbf (sched q evs) (comb m).
+  Lemma events_comb n N : forall evs used q m, Inv n used q m -> wf_evs n used evs ->
+    comb (fold_left (step cb N) evs m) = fold_left cbf (sched q evs) (comb m).
   Proof.
     induction evs as [|[i o|] r IH]; intros used q m HI Hw; cbn.
     - reflexivity.
     - destruct Hw as (Hi & Hnu & Hw). destruct (complete_inv _ _ _ _ i o HI Hi Hnu) as [HI' Hc].
       rewrite (IH _ _ _ HI' Hw), Hc. reflexivity.
-    - destruct (run_inv _ _ _ _ HI) as [HI' Hc].
+    - destruct (run_inv _ N _ _ _ HI) as [HI' Hc].
       rewrite (IH _ _ _ HI' Hw), Hc, fold_left_app. reflexivity.
   Qed.
 
@@ -264,7 +276,7 @@ Section SchedProofs.
   Lemma precomplete_spec (s : S) : forall pre, NoDup (map fst pre) ->
     let m := precomplete s pre in
     queue m = [] /\ comb m = s /\
-    forall i, ins m i = mkInput (match assoc i pre with Some o => cell_of o | None => cempty end) false false.
+    forall i, ins m i = mkP (match assoc i pre with Some o => cell_of o | None => cempty end) [] false.
   Proof.
     unfold precomplete. induction pre as [|[i o] pre IH] using rev_ind; intros Hn; cbn.
     - repeat split; reflexivity.
@@ -280,43 +292,47 @@ Section SchedProofs.
         unfold assoc; cbn. destruct (Nat.eqb_spec i j); [congruence|reflexivity].
   Qed.
 
-  Lemma link_all_spec : forall n (m : mach S), queue m = [] ->
-    (forall i, ilinked (ins m i) = false /\ ipend (ins m i) = false) ->
-    let m' := link_all n m in
-    comb m' = comb m /\ queue m' = filter (fun i => cready (icell (ins m i))) (seq 0 n) /\
-    (forall i, i < n -> ins m' i = mkInput (icell (ins m i)) true (cready (icell (ins m i)))) /\
+  Lemma link_from_spec f : forall n (m : mach S), (forall pos, pos < n -> f pos = pos) -> queue m = [] ->
+    (forall i, plinks (ins m i) = [] /\ ppend (ins m i) = false) ->
+    let m' := link_from f lid n m in
+    comb m' = comb m /\ queue m' = filter (fun i => cready (pcell (ins m i))) (seq 0 n) /\
+    (forall i, i < n -> ins m' i = mkP (pcell (ins m i)) [lid i] (cready (pcell (ins m i)))) /\
     (forall i, n <= i -> ins m' i = ins m i).
   Proof.
-    unfold link_all. induction n as [|n IH]; intros m Hq Hfl; cbn -[seq].
+    unfold link_from. induction n as [|n IH]; intros m Hfn Hq Hfl; cbn -[seq].
     - cbn. repeat split; try assumption; try reflexivity. intros; lia.
     - rewrite seq_S, fold_left_app, filter_app. cbn.
-      destruct (IH m Hq Hfl) as (Hc & Hqu & Hlt & Hge). set (m1 := fold_left rawlink (seq 0 n) m) in *.
-      unfold rawlink. cbv zeta. rewrite (Hge n) by lia. destruct (Hfl n) as [_ Hp]. rewrite Hp. cbn.
-      destruct (cready (icell (ins m n))) eqn:Er; cbn.
+      destruct (IH m (fun pos Hp => Hfn pos (Nat.lt_lt_succ_r _ _ Hp)) Hq Hfl) as (Hc & Hqu & Hlt & Hge).
+      set (m1 := fold_left _ (seq 0 n) m) in *.
+      rewrite (Hfn n) by lia.
+      unfold rawlink. cbv zeta. rewrite (Hge n) by lia. destruct (Hfl n) as [Hl Hp]. rewrite Hp, Hl. cbn.
+      destruct (cready (pcell (ins m n))) eqn:Er; cbn.
       + repeat split; try assumption.
         * now rewrite Hqu.
         * intros i Hi. unfold upd. destruct (Nat.eqb_spec i n) as [->|Hne].
-          -- rewrite Er. destruct (ins m n); reflexivity.
+          -- rewrite Er. reflexivity.
           -- apply Hlt. lia.
         * intros i Hi. rewrite upd_other by lia. apply Hge. lia.
       + repeat split; try assumption.
         * now rewrite Hqu, app_nil_r.
         * intros i Hi. unfold upd. destruct (Nat.eqb_spec i n) as [->|Hne].
-          -- rewrite Er. destruct (ins m n); reflexivity.
+          -- rewrite Er. reflexivity.
           -- apply Hlt. lia.
         * intros i Hi. rewrite upd_other by lia. apply Hge. lia.
   Qed.
 
   Lemma call_inv n pre (s : S) : NoDup (map fst pre) ->
-    let m := link_all n (precomplete s pre) in
+    let m := link_all lid (seq 0 n) (precomplete s pre) in
     Inv n (map fst pre) (pre_order n pre) m /\ comb m = s.
   Proof.
     intros Hn. destruct (precomplete_spec s pre Hn) as (Hq & Hc & Hins).
     set (m0 := precomplete s pre) in *.
-    assert (forall i, ilinked (ins m0 i) = false /\ ipend (ins m0 i) = false) as Hfl.
+    assert (forall i, plinks (ins m0 i) = [] /\ ppend (ins m0 i) = false) as Hfl.
     { intros i. rewrite Hins. split; reflexivity. }
-    destruct (link_all_spec n m0 Hq Hfl) as (Hc' & Hq' & Hlt & _). cbn.
-    split; [|congruence]. constructor.
+    unfold link_all. rewrite seq_length.
+    destruct (link_from_spec (fun pos => nth pos (seq 0 n) 0) n m0) as (Hc' & Hq' & Hlt & _); try assumption.
+    { intros pos Hp. now rewrite seq_nth. }
+    cbn. split; [|congruence]. constructor.
     - rewrite Hq'. unfold pre_order. rewrite pre_order_fst_filter. apply filter_ext.
       intros i. rewrite Hins. cbn. destruct (assoc i pre); [apply cready_cell_of|reflexivity].
     - apply pre_order_nodup.
@@ -347,11 +363,11 @@ Section SchedProofs.
   Qed.
 
   (* the combinator's state after any well-formed history is its callback folded over the deliveries *)
-  Theorem machine_delivers n pre evs (s : S) : wf n pre evs ->
-    comb (fold_left (step cb) evs (link_all n (precomplete s pre))) = fold_left cbf (delivered n pre evs) s.
+  Theorem machine_delivers n N pre evs (s : S) : wf n pre evs ->
+    comb (fold_left (step cb N) evs (link_all lid (seq 0 n) (precomplete s pre))) = fold_left cbf (delivered n pre evs) s.
   Proof.
     intros [Hn Hb]. destruct (call_inv n pre s (NoDup_app_remove_r _ _ Hn)) as [HI Hc].
-    unfold delivered. rewrite <- Hc at 2. apply (events_comb n evs (map fst pre)); [exact HI|].
+    unfold delivered. rewrite <- Hc at 2. apply (events_comb n N evs (map fst pre)); [exact HI|].
     apply (wf_wf_evs n); [assumption|]. intros i Hi. apply Hb, in_or_app. now right.
   Qed.
 End SchedProofs.
@@ -467,7 +483,7 @@ Proof.
 Qed.
 
 Lemma all_fold n : forall D, NoDup (map fst D) -> (forall i, In i (map fst D) -> i < n) ->
-  all_inv n D (fold_left (cbf all_cb) D (all_new n)).
+  all_inv n D (fold_left (cbf all_cb (fun pos => pos)) D (all_new n)).
 Proof.
   induction D as [|[i o] D IH] using rev_ind; intros Hn Hb.
   - unfold all_inv; cbn. rewrite repeat_length. repeat split.
@@ -499,7 +515,8 @@ Qed.
 Lemma all_run_ret n pre evs : wf n pre evs ->
   all_inv n (delivered n pre evs) (comb (all_run n pre evs)).
 Proof.
-  intros H. unfold all_run, all_call. rewrite (machine_delivers all_cb n pre evs (all_new n) H).
+  intros H. unfold all_run, all_run_on, all_call_on. rewrite !seq_length.
+  rewrite (machine_delivers all_cb (fun pos => pos) n n pre evs (all_new n) H).
   destruct (wf_delivered n pre evs H) as [Hn Hb]. now apply all_fold.
 Qed.
 
@@ -530,7 +547,7 @@ Definition any_inv (n : nat) (D : list (nat * outcome Z)) (s : any_st) : Prop :=
   y_ret s = any_spec_ret n D.
 
 Lemma any_fold n : forall D, NoDup (map fst D) -> (forall i, In i (map fst D) -> i < n) ->
-  any_inv n D (fold_left (cbf any_cb) D (mkAny None (Z.of_nat n) cempty false)).
+  any_inv n D (fold_left (cbf any_cb (fun _ => 0)) D (mkAny None (Z.of_nat n) cempty false)).
 Proof.
   induction D as [|[i o] D IH] using rev_ind; intros Hn Hb.
   - unfold any_inv, any_spec_ret; cbn. repeat split. lia.
@@ -554,23 +571,22 @@ Proof.
 Qed.
 
 (* nothing is linked (the shortcut returned an input): events only write the inputs they name *)
-Lemma unlinked_run {S} (cb : S -> nat -> cell Z -> S) : forall evs (m : mach S),
-  queue m = [] -> (forall j, ilinked (ins m j) = false) ->
-  let m' := fold_left (step cb) evs m in
+Lemma unlinked_run {S} (cb : S -> nat -> cell Z -> S) N : forall evs (m : mach S),
+  queue m = [] -> (forall j, plinks (ins m j) = []) ->
+  let m' := fold_left (step cb N) evs m in
   comb m' = comb m /\ forall j, ~ In j (map fst (completions evs)) -> ins m' j = ins m j.
 Proof.
   induction evs as [|[i o|] r IH]; intros m Hq Hl; cbn.
   - split; reflexivity.
-  - assert (complete m i o = mkMach (upd (ins m) i (mkInput (cput (icell (ins m i)) o) false (ipend (ins m i)))) [] (comb m)) as E.
+  - assert (complete m i o = mkMach (upd (ins m) i (mkP (cput (pcell (ins m i)) o) [] (ppend (ins m i)))) [] (comb m)) as E.
     { unfold complete. rewrite (Hl i), Hq. reflexivity. }
     rewrite E. match goal with |- context [fold_left _ r ?m1] => destruct (IH m1) as [Hc Hi] end.
     + reflexivity.
     + intros j. cbn. unfold upd. destruct (Nat.eqb j i); [reflexivity|apply Hl].
     + cbn in *. split; [exact Hc|]. intros j Hj. rewrite Hi by tauto.
       unfold upd. destruct (Nat.eqb_spec j i); [subst; tauto|reflexivity].
-  - assert (run cb m = mkMach (ins m) [] (comb m)) as E by (unfold run; now rewrite Hq).
-    rewrite E. match goal with |- context [fold_left _ r ?m1] => destruct (IH m1) as [Hc Hi] end;
-      [reflexivity|exact Hl|]. cbn in *. split; assumption.
+  - assert (run cb N m = m) as E by (unfold run; now apply drain_nil).
+    rewrite E. destruct (IH m Hq Hl) as [Hc Hi]. split; assumption.
 Qed.
 
 Lemma find_first_ok pre (g : nat -> cell Z) :
@@ -598,21 +614,21 @@ Theorem any_run_ret n pre evs : wf n pre evs ->
   /\ y_bad (comb (any_run n pre evs)) = false.
 Proof.
   intros H. pose proof H as [Hn Hb]. pose proof (NoDup_app_remove_r _ _ Hn) as Hnp.
-  unfold any_run, any_call.
+  unfold any_run, any_run_on, any_call_on. rewrite !seq_length.
   destruct (precomplete_spec (mkAny None (Z.of_nat n) cempty false) pre Hnp) as (Hq & Hc & Hins).
   set (m0 := precomplete _ pre) in *.
-  pose proof (find_first_ok pre (fun i => icell (ins m0 i))) as Hf.
-  specialize (Hf (fun i => f_equal icell (Hins i)) (seq 0 n)). cbn beta in Hf. fold (pre_order n pre) in Hf.
+  pose proof (find_first_ok pre (fun i => pcell (ins m0 i))) as Hf.
+  specialize (Hf (fun i => f_equal pcell (Hins i)) (seq 0 n)). cbn beta in Hf. fold (pre_order n pre) in Hf.
   destruct (find _ (seq 0 n)) as [i|].
   - destruct Hf as (v & Ha & Hfo). rewrite Hfo.
-    match goal with |- context [fold_left _ evs ?m1] => destruct (unlinked_run any_cb evs m1) as [Hcm Him] end.
+    match goal with |- context [fold_left _ evs ?m1] => destruct (unlinked_run any_cb n evs m1) as [Hcm Him] end.
     + exact Hq.
     + intros j. cbn. now rewrite Hins.
     + cbn in *. unfold any_ret. rewrite Hcm. cbn. split; [|reflexivity].
       rewrite Him, Hins, Ha; [reflexivity|].
       apply (NoDup_app_disjoint _ _ Hn). apply assoc_in in Ha. change i with (fst (i, Ok v)). now apply in_map.
   - rewrite Hf. unfold any_ret. subst m0.
-    rewrite (machine_delivers any_cb n pre evs _ H).
+    rewrite (machine_delivers any_cb (fun _ => 0) n n pre evs _ H).
     destruct (wf_delivered n pre evs H) as [Hnd Hbd].
     destruct (any_fold n _ Hnd Hbd) as (_ & Hbad & Hal & Hret). rewrite Hal. split; assumption.
 Qed.
@@ -1065,4 +1081,419 @@ Proof.
   destruct inline; cbn.
   - apply runfn_done.
   - destruct runs as [|k]; cbn; [reflexivity|apply runfn_done].
+Qed.
+
+(* ================================================================================================ *)
+(* WhenAll on an input list in which a result may occupy several positions                           *)
+(* ================================================================================================ *)
+Definition Pof (ars : list nat) (r : nat) : list nat :=
+  positions_upto (fun pos => nth pos ars 0) (length ars) r.
+
+Lemma Pof_in ars r pos : In pos (Pof ars r) <-> pos < length ars /\ nth pos ars 0 = r.
+Proof.
+  unfold Pof, positions_upto. rewrite filter_In, in_seq, Nat.eqb_eq. split; intros [H1 H2]; split; try assumption; lia.
+Qed.
+
+Lemma Pof_nodup ars r : NoDup (Pof ars r).
+Proof. apply NoDup_filter, seq_NoDup. Qed.
+
+Lemma Pof_nonempty ars r : In r ars -> Pof ars r <> [].
+Proof.
+  intros H. destruct (In_nth ars r 0 H) as (pos & Hp & Hn). intros E.
+  assert (In pos (Pof ars r)) as Hin by (apply Pof_in; split; assumption). rewrite E in Hin. contradiction.
+Qed.
+
+Lemma last_in {A} (l : list A) d : l <> [] -> In (last l d) l.
+Proof.
+  induction l as [|a l IH]; intros H; [contradiction|]. destruct l as [|b l]; [now left|].
+  right. apply IH. discriminate.
+Qed.
+
+(* distinct callables: every link is called, none is left *)
+Lemma notify_list_all : forall L done, NoDup L -> (forall x, In x L -> ~ In x done) -> L <> [] ->
+  notify_list (last L 0) done L = (L, []).
+Proof.
+  induction L as [|l r IH]; intros done Hn Hd Hne; [contradiction|].
+  inversion Hn as [|? ? Hnl Hnr]; subst. cbn [notify_list].
+  assert (existsb (Nat.eqb l) done = false) as Ef.
+  { destruct (existsb (Nat.eqb l) done) eqn:E; [|reflexivity]. apply existsb_exists in E as (x & Hx & Hxe).
+    apply Nat.eqb_eq in Hxe. subst x. exfalso. apply (Hd l); [now left|assumption]. }
+  rewrite Ef. cbn [negb]. destruct r as [|l' r'].
+  - cbn. now rewrite Nat.eqb_refl.
+  - change (last (l :: l' :: r') 0) with (last (l' :: r') 0).
+    assert (Nat.eqb l (last (l' :: r') 0) = false) as En.
+    { apply Nat.eqb_neq. intros E. apply Hnl. rewrite E. apply last_in. discriminate. }
+    rewrite En. rewrite IH; [reflexivity|assumption| |discriminate].
+    intros x Hx [<-|Hxd]; [now apply Hnl|]. apply (Hd x); [now right|assumption].
+Qed.
+
+Section AliasAll.
+  Context {S : Type}.
+  Variable cb : S -> nat -> cell Z -> S.
+  Variable ars : list nat.
+
+  Definition cbp (s : S) (p : nat * outcome Z) : S := cb s (fst p) (cell_of (snd p)).
+
+  (* the deliveries of a result, position by position *)
+  Definition expand1 (p : nat * outcome Z) : list (nat * outcome Z) := map (fun pos => (pos, snd p)) (Pof ars (fst p)).
+  Definition expand (q : list (nat * outcome Z)) : list (nat * outcome Z) := flat_map expand1 q.
+
+  Lemma notify_all (m : mach S) r c L : ins m r = mkP c L true -> NoDup L -> L <> [] ->
+    notify cb m r = mkMach (upd (ins m) r (mkP c [] false)) (queue m) (fold_left (fun s k => cb s k c) L (comb m)).
+  Proof.
+    intros H Hn Hne. unfold notify. rewrite H. cbn [pcell plinks].
+    rewrite notify_list_all; [reflexivity|assumption|intros ? ? []|assumption].
+  Qed.
+
+  Lemma fold_positions o : forall L (s : S),
+    fold_left (fun s k => cb s k (cell_of o)) L s = fold_left cbp (map (fun pos => (pos, o)) L) s.
+  Proof. induction L as [|k L IH]; intros s; cbn; [reflexivity|apply IH]. Qed.
+
+  (* registering the links position by position *)
+  Lemma link_from_alias (f : nat -> nat) (rdy : nat -> bool) : forall k (m : mach S), queue m = [] ->
+    (forall r, plinks (ins m r) = [] /\ ppend (ins m r) = false) ->
+    (forall r, cready (pcell (ins m r)) = rdy r) ->
+    let m' := link_from f (fun pos => pos) k m in
+    comb m' = comb m /\ queue m' = ready_queue rdy f k /\
+    forall r, ins m' r = mkP (pcell (ins m r)) (positions_upto f k r) (existsb (Nat.eqb r) (ready_queue rdy f k)).
+  Proof.
+    unfold link_from. induction k as [|k IH]; intros m Hq Hfl Hr; cbn -[seq].
+    - cbn. repeat split; try assumption. intros r. destruct (Hfl r) as [Hl Hp]. destruct (ins m r); cbn in *. now subst.
+    - rewrite seq_S, fold_left_app. cbn [fold_left Nat.add].
+      destruct (IH m Hq Hfl Hr) as (Hc & Hqu & Hins). set (m1 := fold_left _ (seq 0 k) m) in *.
+      unfold rawlink. cbv zeta. rewrite (Hins (f k)). cbn [pcell plinks ppend]. rewrite Hr.
+      assert (forall r, positions_upto f (Datatypes.S k) r
+                        = positions_upto f k r ++ (if Nat.eqb (f k) r then [k] else [])) as Hpos.
+      { intros r. unfold positions_upto. rewrite seq_S, filter_app. cbn. reflexivity. }
+      destruct (rdy (f k) && negb (existsb (Nat.eqb (f k)) (ready_queue rdy f k))) eqn:Ec; cbn [ins queue comb].
+      + split; [assumption|]. split; [now rewrite Hqu|]. intros r. rewrite Hpos. unfold upd.
+        destruct (Nat.eqb_spec r (f k)) as [->|Hne].
+        * rewrite Nat.eqb_refl. rewrite existsb_app. cbn. rewrite Nat.eqb_refl, orb_true_r. reflexivity.
+        * rewrite Hins. replace (Nat.eqb (f k) r) with false by (symmetry; apply Nat.eqb_neq; congruence).
+          rewrite app_nil_r, existsb_app. cbn.
+          replace (Nat.eqb r (f k)) with false by (symmetry; now apply Nat.eqb_neq). now rewrite !orb_false_r.
+      + split; [assumption|]. split; [assumption|]. intros r. rewrite Hpos. unfold upd.
+        destruct (Nat.eqb_spec r (f k)) as [->|Hne].
+        * rewrite Nat.eqb_refl. reflexivity.
+        * rewrite Hins. replace (Nat.eqb (f k) r) with false by (symmetry; apply Nat.eqb_neq; congruence).
+          now rewrite app_nil_r.
+  Qed.
+  Fixpoint wf_evs_a (used : list nat) (evs : list ev) : Prop :=
+    match evs with
+    | [] => True
+    | Complete r _ :: t => In r ars /\ ~ In r used /\ wf_evs_a (r :: used) t
+    | Run :: t => wf_evs_a used t
+    end.
+
+  Record Inv_a (used : list nat) (q : list (nat * outcome Z)) (m : mach S) : Prop := {
+    inva_queue : queue m = map fst q;
+    inva_nodup : NoDup (map fst q);
+    inva_queued : forall r o, In (r, o) q -> ins m r = mkP (cell_of o) (Pof ars r) true /\ In r ars;
+    inva_fresh : forall r, In r ars -> ~ In r used -> ins m r = mkP cempty (Pof ars r) false;
+    inva_used : forall r, In r (map fst q) -> In r used
+  }.
+
+  Lemma upd_same_a f i x : upd f i x i = x.
+  Proof. unfold upd. now rewrite Nat.eqb_refl. Qed.
+  Lemma upd_other_a f i x j : j <> i -> upd f i x j = f j.
+  Proof. unfold upd. intros H. destruct (Nat.eqb_spec j i); [contradiction|reflexivity]. Qed.
+
+  Lemma complete_inv_a used q m r o : Inv_a used q m -> In r ars -> ~ In r used ->
+    Inv_a (r :: used) (q ++ [(r, o)]) (complete m r o) /\ comb (complete m r o) = comb m.
+  Proof.
+    intros [Hq Hn Hqd Hf Hu] Hr Hnu. unfold complete. rewrite (Hf r Hr Hnu). cbn [pcell plinks ppend].
+    pose proof (Pof_nonempty ars r Hr) as Hne. destruct (Pof ars r) as [|k L] eqn:EP; [contradiction|]. cbn.
+    split; [|reflexivity]. constructor; cbn.
+    - rewrite Hq, map_app. reflexivity.
+    - rewrite map_app. cbn. apply NoDup_app_intro; [assumption|repeat constructor; intros []|].
+      intros j Hj [<-|[]]. now apply Hnu, Hu.
+    - intros j o' Hin. apply in_app_or in Hin as [Hin|[E|[]]].
+      + assert (j <> r) as Hner. { intros ->. apply Hnu, Hu. change r with (fst (r, o')). now apply in_map. }
+        rewrite upd_other_a by assumption. now apply Hqd.
+      + inversion E; subst. rewrite upd_same_a, EP. split; [reflexivity|assumption].
+    - intros j Hj Hnj. rewrite upd_other_a by (intros ->; apply Hnj; now left).
+      apply Hf; [assumption|]. intros H. apply Hnj. now right.
+    - intros j Hj. rewrite map_app in Hj. apply in_app_or in Hj as [Hj|[<-|[]]]; [right; now apply Hu|now left].
+  Qed.
+
+  Lemma drain_queue_a : forall q (m : mach S) fuel, length q <= fuel -> queue m = map fst q -> NoDup (map fst q) ->
+    (forall r o, In (r, o) q -> ins m r = mkP (cell_of o) (Pof ars r) true /\ In r ars) ->
+    let m' := drain cb fuel m in
+    comb m' = fold_left cbp (expand q) (comb m) /\ queue m' = [] /\
+    (forall j, ~ In j (map fst q) -> ins m' j = ins m j).
+  Proof.
+    induction q as [|[r o] q IH]; intros m fuel Hf Hqm Hn Hq; cbn in Hqm |- *.
+    - rewrite (drain_nil cb fuel m Hqm). repeat split; assumption.
+    - destruct fuel as [|fuel]; [cbn in Hf; lia|]. cbn [drain]. rewrite Hqm.
+      inversion Hn as [|? ? Hni Hr]; subst.
+      destruct (Hq r o (or_introl eq_refl)) as [Hir Hra].
+      rewrite (notify_all _ r (cell_of o) (Pof ars r)); [|exact Hir|apply Pof_nodup|now apply Pof_nonempty].
+      cbn [ins queue comb].
+      match goal with |- context [drain cb fuel ?m1] => specialize (IH m1 fuel) end.
+      destruct IH as (Hc & Hqu & Hins); cbn [ins queue comb]; try assumption; [cbn in Hf; lia|reflexivity| |].
+      + intros j o' Hin. rewrite upd_other_a. * apply Hq. now right.
+        * intros ->. apply Hni. change r with (fst (r, o')). now apply in_map.
+      + split; [|split].
+        * rewrite Hc, fold_left_app. unfold expand1 at 2. cbn [fst snd]. now rewrite fold_positions.
+        * exact Hqu.
+        * intros j Hj. rewrite Hins by tauto. apply upd_other_a. intros ->. tauto.
+  Qed.
+
+  Lemma run_inv_a N used q m : Inv_a used q m ->
+    Inv_a used [] (run cb N m) /\ comb (run cb N m) = fold_left cbp (expand q) (comb m).
+  Proof.
+    intros [Hq Hn Hqd Hf Hu]. unfold run.
+    destruct (drain_queue_a q m (length (queue m) + N)) as (Hc & Hqu & Hins); try assumption.
+    { rewrite Hq, map_length. lia. }
+    split; [|exact Hc]. constructor.
+    - exact Hqu.
+    - constructor.
+    - intros ? ? [].
+    - intros i Hi Hnu. rewrite Hins; [now apply Hf|]. intros H. now apply Hnu, Hu.
+    - intros ? [].
+  Qed.
+
+  Lemma expand_app a b : expand (a ++ b) = expand a ++ expand b.
+  Proof. unfold expand. apply flat_map_app. Qed.
+
+  Lemma events_comb_a N : forall evs used q m, Inv_a used q m -> wf_evs_a used evs ->
+    comb (fold_left (step cb N) evs m) = fold_left cbp (expand (sched q evs)) (comb m).
+  Proof.
+    induction evs as [|[i o|] r IH]; intros used q m HI Hw; cbn.
+    - reflexivity.
+    - destruct Hw as (Hi & Hnu & Hw). destruct (complete_inv_a _ _ _ i o HI Hi Hnu) as [HI' Hc].
+      rewrite (IH _ _ _ HI' Hw), Hc. reflexivity.
+    - destruct (run_inv_a N _ _ _ HI) as [HI' Hc].
+      rewrite (IH _ _ _ HI' Hw), Hc, expand_app, fold_left_app. reflexivity.
+  Qed.
+
+  (* the ready queue: no duplicates, only ready results that are listed *)
+  Lemma ready_queue_spec rdy f : forall k,
+    NoDup (ready_queue rdy f k) /\
+    forall r, In r (ready_queue rdy f k) -> rdy r = true /\ exists pos, pos < k /\ f pos = r.
+  Proof.
+    induction k as [|k [IHn IHi]]; cbn; [split; [constructor|intros ? []]|].
+    destruct (rdy (f k)) eqn:Er; cbn [andb]; [destruct (existsb (Nat.eqb (f k)) (ready_queue rdy f k)) eqn:Ee; cbn [negb]|].
+    - split; [assumption|]. intros r Hr. destruct (IHi r Hr) as [H1 (pos & Hp & Hf)]. split; [assumption|]. exists pos. split; [lia|assumption].
+    - split.
+      + apply NoDup_app_intro; [assumption|repeat constructor; intros []|].
+        intros x Hx [<-|[]]. assert (existsb (Nat.eqb (f k)) (ready_queue rdy f k) = true) as C.
+        { apply existsb_exists. exists (f k). split; [assumption|apply Nat.eqb_refl]. }
+        congruence.
+      + intros r Hr. apply in_app_or in Hr as [Hr|[<-|[]]].
+        * destruct (IHi r Hr) as [H1 (pos & Hp & Hf)]. split; [assumption|]. exists pos. split; [lia|assumption].
+        * split; [assumption|]. exists k. split; [lia|reflexivity].
+    - split; [assumption|]. intros r Hr. destruct (IHi r Hr) as [H1 (pos & Hp & Hf)]. split; [assumption|]. exists pos. split; [lia|assumption].
+  Qed.
+
+  Lemma pre_order_on_in pre r o : In (r, o) (pre_order_on ars pre) <->
+    In r (ready_queue (is_pre pre) (fun pos => nth pos ars 0) (length ars)) /\ assoc r pre = Some o.
+  Proof.
+    unfold pre_order_on. rewrite in_flat_map. split.
+    - intros (j & Hj & Hin). destruct (assoc j pre) as [o'|] eqn:E; cbn in Hin; [|contradiction].
+      destruct Hin as [Hin|[]]. inversion Hin; subst. split; assumption.
+    - intros [Hi E]. exists r. split; [assumption|]. rewrite E. now left.
+  Qed.
+
+  Lemma pre_order_on_fst pre :
+    map fst (pre_order_on ars pre) = ready_queue (is_pre pre) (fun pos => nth pos ars 0) (length ars).
+  Proof.
+    unfold pre_order_on. rewrite pre_order_fst_filter.
+    destruct (ready_queue_spec (is_pre pre) (fun pos => nth pos ars 0) (length ars)) as [_ Hi].
+    induction (ready_queue _ _ _) as [|x l IH]; cbn; [reflexivity|].
+    destruct (Hi x (or_introl eq_refl)) as [Hx _]. unfold is_pre in Hx. destruct (assoc x pre); [|discriminate].
+    f_equal. apply IH. intros r Hr. apply Hi. now right.
+  Qed.
+
+  Lemma call_inv_a pre (s : S) : NoDup (map fst pre) ->
+    let m := link_all (fun pos => pos) ars (precomplete s pre) in
+    Inv_a (map fst pre) (pre_order_on ars pre) m /\ comb m = s.
+  Proof.
+    intros Hn. destruct (precomplete_spec s pre Hn) as (Hq & Hc & Hins).
+    set (m0 := precomplete s pre) in *.
+    assert (forall i, plinks (ins m0 i) = [] /\ ppend (ins m0 i) = false) as Hfl.
+    { intros i. rewrite Hins. split; reflexivity. }
+    assert (forall r, cready (pcell (ins m0 r)) = is_pre pre r) as Hrd.
+    { intros r. rewrite Hins. unfold is_pre. cbn. destruct (assoc r pre); [apply cready_cell_of|reflexivity]. }
+    unfold link_all.
+    destruct (link_from_alias (fun pos => nth pos ars 0) (is_pre pre) (length ars) m0 Hq Hfl Hrd) as (Hc' & Hq' & Hi').
+    destruct (ready_queue_spec (is_pre pre) (fun pos => nth pos ars 0) (length ars)) as [Hnd Hmem].
+    cbn. split; [|congruence]. constructor.
+    - now rewrite Hq', pre_order_on_fst.
+    - now rewrite pre_order_on_fst.
+    - intros r o Hin. apply pre_order_on_in in Hin as [Hr Ha]. rewrite Hi', Hins, Ha. cbn [pcell].
+      assert (existsb (Nat.eqb r) (ready_queue (is_pre pre) (fun pos => nth pos ars 0) (length ars)) = true) as Ee.
+      { apply existsb_exists. exists r. split; [assumption|apply Nat.eqb_refl]. }
+      rewrite Ee. split; [reflexivity|]. destruct (Hmem r Hr) as [_ (pos & Hp & Hf)]. rewrite <- Hf. now apply nth_In.
+    - intros r Hr Hnu. rewrite Hi', Hins. apply assoc_none in Hnu. rewrite Hnu. cbn [pcell].
+      destruct (existsb (Nat.eqb r) _) eqn:Ee; [|reflexivity].
+      apply existsb_exists in Ee as (x & Hx & Hxe). apply Nat.eqb_eq in Hxe. subst x.
+      destruct (Hmem r Hx) as [Hp _]. unfold is_pre in Hp. rewrite Hnu in Hp. discriminate.
+    - intros r Hr. rewrite pre_order_on_fst in Hr. destruct (Hmem r Hr) as [Hp _]. unfold is_pre in Hp.
+      destruct (assoc r pre) as [o|] eqn:E; [|discriminate]. apply assoc_in in E. change r with (fst (r, o)). now apply in_map.
+  Qed.
+
+  Lemma awf_wf_evs_a : forall evs used,
+    NoDup (used ++ map fst (completions evs)) ->
+    (forall r, In r (map fst (completions evs)) -> In r ars) -> wf_evs_a used evs.
+  Proof.
+    induction evs as [|[i o|] t IH]; intros used Hn Hb; cbn in *.
+    - exact I.
+    - split; [apply Hb; now left|]. split.
+      + intros Hin. apply (NoDup_app_disjoint _ _ Hn i Hin). now left.
+      + apply IH.
+        * apply NoDup_app_intro.
+          -- constructor. ++ intros Hin. apply (NoDup_app_disjoint _ _ Hn i Hin). now left.
+             ++ now apply NoDup_app_remove_r in Hn.
+          -- apply NoDup_app_remove_l in Hn. now inversion Hn.
+          -- intros x [<-|Hx] Hin.
+             ++ apply NoDup_app_remove_l in Hn. now inversion Hn.
+             ++ apply (NoDup_app_disjoint _ _ Hn x Hx). now right.
+        * intros j Hj. apply Hb. now right.
+    - now apply IH.
+  Qed.
+
+  Theorem machine_delivers_a N pre evs (s : S) : awf ars pre evs ->
+    comb (fold_left (step cb N) evs (link_all (fun pos => pos) ars (precomplete s pre)))
+    = fold_left cbp (expand (delivered_on ars pre evs)) s.
+  Proof.
+    intros [Hn Hb]. destruct (call_inv_a pre s (NoDup_app_remove_r _ _ Hn)) as [HI Hc].
+    unfold delivered_on. rewrite <- Hc at 2. apply (events_comb_a N evs (map fst pre)); [exact HI|].
+    apply awf_wf_evs_a; [assumption|]. intros i Hi. apply Hb, in_or_app. now right.
+  Qed.
+
+  (* the positions delivered: distinct, and position pos carries the outcome of the result listed there *)
+  Lemma expand_in q pos o : In (pos, o) (expand q) <-> pos < length ars /\ In (nth pos ars 0, o) q.
+  Proof.
+    unfold expand, expand1. rewrite in_flat_map. split.
+    - intros ([r o'] & Hq & Hin). cbn in Hin. apply in_map_iff in Hin as (k & E & Hk). inversion E; subst.
+      apply Pof_in in Hk as [Hl Hr]. split; [assumption|]. now rewrite Hr.
+    - intros [Hl Hin]. exists (nth pos ars 0, o). split; [assumption|]. cbn. apply in_map_iff. exists pos.
+      split; [reflexivity|]. apply Pof_in. split; [assumption|reflexivity].
+  Qed.
+
+  Lemma expand_fst_in q pos : In pos (map fst (expand q)) <-> pos < length ars /\ In (nth pos ars 0) (map fst q).
+  Proof.
+    rewrite in_map_iff. split.
+    - intros ([p o] & E & Hin). cbn in E. subst p. apply expand_in in Hin as [Hl Hin]. split; [assumption|].
+      change (nth pos ars 0) with (fst (nth pos ars 0, o)). now apply in_map.
+    - intros [Hl Hin]. apply in_map_iff in Hin as ([r o] & E & Hin). cbn in E. subst r.
+      exists (pos, o). split; [reflexivity|]. apply expand_in. split; assumption.
+  Qed.
+
+  Lemma expand_nodup : forall q, NoDup (map fst q) -> NoDup (map fst (expand q)).
+  Proof.
+    induction q as [|[r o] q IH]; intros Hn; cbn; [constructor|].
+    inversion Hn as [|? ? Hnr Hnq]; subst. rewrite map_app. apply NoDup_app_intro.
+    - unfold expand1. cbn. rewrite map_map. cbn. rewrite map_id. apply Pof_nodup.
+    - now apply IH.
+    - intros pos Hp Hq. unfold expand1 in Hp. cbn in Hp. rewrite map_map in Hp. cbn in Hp. rewrite map_id in Hp.
+      apply Pof_in in Hp as [_ Hr]. apply expand_fst_in in Hq as [_ Hq]. rewrite Hr in Hq. contradiction.
+  Qed.
+End AliasAll.
+
+Lemma map_nth_seq {A} (g : nat -> A) : forall ars : list nat,
+  map (fun pos => g (nth pos ars 0)) (seq 0 (length ars)) = map g ars.
+Proof.
+  induction ars as [|a t IH]; [reflexivity|]. cbn [length]. rewrite <- cons_seq, <- seq_shift. cbn [map].
+  rewrite map_map. cbn. now rewrite IH.
+Qed.
+
+Lemma awf_delivered_on ars pre evs : awf ars pre evs ->
+  NoDup (map fst (delivered_on ars pre evs)) /\ (forall r, In r (map fst (delivered_on ars pre evs)) -> In r ars).
+Proof.
+  intros [Hn Hb]. unfold delivered_on.
+  destruct (sched_prefix evs (pre_order_on ars pre)) as [rest E].
+  destruct (ready_queue_spec (is_pre pre) (fun pos => nth pos ars 0) (length ars)) as [Hnd Hmem].
+  assert (forall r, In r (map fst (pre_order_on ars pre)) -> In r (map fst pre) /\ In r ars) as Hpo.
+  { intros r Hr. rewrite pre_order_on_fst in Hr. destruct (Hmem r Hr) as [Hp (pos & Hl & Hf)]. split.
+    - unfold is_pre in Hp. destruct (assoc r pre) as [o|] eqn:Ea; [|discriminate]. apply assoc_in in Ea.
+      change r with (fst (r, o)). now apply in_map.
+    - rewrite <- Hf. now apply nth_In. }
+  assert (NoDup (map fst (pre_order_on ars pre ++ completions evs))) as Hk.
+  { rewrite map_app. apply NoDup_app_intro.
+    - now rewrite pre_order_on_fst.
+    - now apply NoDup_app_remove_l in Hn.
+    - intros r Hr. apply Hpo in Hr as [Hr _]. now apply (NoDup_app_disjoint _ _ Hn). }
+  rewrite E, map_app in Hk. split; [now apply NoDup_app_remove_r in Hk|].
+  intros r Hr. assert (In r (map fst (pre_order_on ars pre ++ completions evs))) as Hin.
+  { rewrite E, map_app. apply in_or_app. now left. }
+  rewrite map_app in Hin. apply in_app_or in Hin as [Hin|Hin]; [now apply Hpo in Hin|].
+  apply Hb, in_or_app. now right.
+Qed.
+
+Lemma all_alias_inv ars pre evs : awf ars pre evs ->
+  all_inv (length ars) (expand ars (delivered_on ars pre evs)) (comb (all_run_on ars pre evs)).
+Proof.
+  intros H. unfold all_run_on, all_call_on.
+  rewrite (machine_delivers_a all_cb ars (length ars) pre evs (all_new (length ars)) H).
+  destruct (awf_delivered_on ars pre evs H) as [Hn _].
+  change (cbp all_cb) with (cbf all_cb (fun pos => pos)). apply all_fold.
+  - now apply expand_nodup.
+  - intros pos Hp. now apply expand_fst_in in Hp.
+Qed.
+
+Theorem all_alias_spec ars pre evs : awf ars pre evs ->
+  let Q := delivered_on ars pre evs in
+  let r := all_ret (all_run_on ars pre evs) in
+  (forall a e, In (a, Err e) Q -> cval r = None /\ exists a' e', In (a', Err e') Q /\ cexc r = Some e') /\
+  (all_ok Q -> (forall a, In a ars -> In a (map fst Q)) ->
+     r = mkCell (Some (map (value_of Q) ars)) None /\
+     forall a, In a ars -> exists v, In (a, Ok v) Q /\ value_of Q a = Some v) /\
+  (all_ok Q -> (exists a, In a ars /\ ~ In a (map fst Q)) -> r = cempty) /\
+  (csucc r = true -> all_ok Q /\ forall a, In a ars -> In a (map fst Q)).
+Proof.
+  intros H Q r. pose proof (all_alias_inv ars pre evs H) as Hinv. fold Q in Hinv.
+  destruct (awf_delivered_on ars pre evs H) as [HnQ HbQ]. fold Q in HnQ, HbQ.
+  set (n := length ars) in *. set (D := expand ars Q) in *.
+  assert (NoDup (map fst D)) as HnD by now apply expand_nodup.
+  assert (forall pos, In pos (map fst D) -> pos < n) as HbD by (intros pos Hp; now apply expand_fst_in in Hp).
+  assert (length D <= n) as Hle by (rewrite <- (map_length fst); now apply NoDup_bounded_length).
+  assert (all_ok Q -> all_ok D) as HokD.
+  { intros Hok pos e Hin. apply expand_in in Hin as [_ Hin]. now apply (Hok (nth pos ars 0) e). }
+  assert ((forall a, In a ars -> In a (map fst Q)) -> length D = n) as Hfull.
+  { intros Hall. apply Nat.le_antisymm; [assumption|].
+    rewrite <- (map_length fst D), <- (seq_length n 0). apply NoDup_incl_length; [apply seq_NoDup|].
+    intros pos Hp. apply in_seq in Hp. apply expand_fst_in. split; [lia|]. apply Hall, nth_In. lia. }
+  assert (forall a, In a ars -> ~ In a (map fst Q) -> length D < n) as Hpart.
+  { intros a Ha Hna. destruct (Nat.eq_dec (length D) n) as [E|E]; [|lia]. exfalso.
+    destruct (In_nth ars a 0 Ha) as (pos & Hp & Hnth).
+    assert (In pos (map fst D)) as Hin by (apply (NoDup_full _ n); try assumption; now rewrite map_length).
+    apply expand_fst_in in Hin as [_ Hin]. rewrite Hnth in Hin. contradiction. }
+  unfold all_inv in Hinv.
+  assert (forall a e, In (a, Err e) Q -> cval r = None /\ exists a' e', In (a', Err e') Q /\ cexc r = Some e') as Hfail.
+  { intros a e Hin. assert (In a ars) as Ha by (apply HbQ; change a with (fst (a, @Err Z e)); now apply in_map).
+    destruct (In_nth ars a 0 Ha) as (pos & Hp & Hnth).
+    assert (In (pos, Err e) D) as HinD by (apply expand_in; split; [assumption|now rewrite Hnth]).
+    destruct (last_err D) as [e'|] eqn:El.
+    - unfold r, all_ret. rewrite Hinv. split; [reflexivity|]. apply last_err_in in El as (pos' & Hpe).
+      apply expand_in in Hpe as [_ Hpe]. exists (nth pos' ars 0), e'. split; [assumption|reflexivity].
+    - exfalso. apply last_err_none in El. now apply (El pos e). }
+  assert (all_ok Q -> (forall a, In a ars -> In a (map fst Q)) ->
+          r = mkCell (Some (map (value_of Q) ars)) None /\
+          forall a, In a ars -> exists v, In (a, Ok v) Q /\ value_of Q a = Some v) as Hsucc.
+  { intros Hok Hall. pose proof (HokD Hok) as HokD'. pose proof (Hfull Hall) as Hl.
+    pose proof HokD' as El. apply last_err_none in El. rewrite El in Hinv.
+    destruct Hinv as (_ & Hlen & Hnth & Hret). rewrite Hl, Nat.eqb_refl in Hret.
+    destruct (all_results_full n D _ HnD HbD Hl HokD' Hlen Hnth) as [Hv Hex].
+    assert (forall pos, pos < n -> exists v, In (nth pos ars 0, Ok v) Q /\ value_of D pos = Some v /\ value_of Q (nth pos ars 0) = Some v) as Hpos.
+    { intros pos Hp. destruct (Hex pos Hp) as (v & Hin & Hvo). apply expand_in in Hin as [_ Hin].
+      exists v. split; [assumption|]. split; [assumption|]. now apply value_of_in. }
+    split.
+    - unfold r, all_ret. rewrite Hret, Hv. f_equal. f_equal. unfold values_in_input_order.
+      rewrite <- (map_nth_seq (value_of Q) ars). apply map_ext_in. intros pos Hp. apply in_seq in Hp.
+      destruct (Hpos pos) as (v & _ & E1 & E2); [lia|]. now rewrite E1, E2.
+    - intros a Ha. destruct (In_nth ars a 0 Ha) as (pos & Hp & Hn'). destruct (Hpos pos Hp) as (v & Hin & _ & E2).
+      rewrite Hn' in *. exists v. split; assumption. }
+  assert (all_ok Q -> (exists a, In a ars /\ ~ In a (map fst Q)) -> r = cempty) as Hpend.
+  { intros Hok (a & Ha & Hna). pose proof (Hpart a Ha Hna) as Hl. pose proof (HokD Hok) as El.
+    apply last_err_none in El. rewrite El in Hinv. destruct Hinv as (_ & _ & _ & Hret).
+    destruct (Nat.eqb_spec (length D) n); [lia|exact Hret]. }
+  split; [exact Hfail|split; [exact Hsucc|split; [exact Hpend|]]].
+  intros Hs.
+  assert (all_ok Q) as Hok.
+  { intros a e Hin. destruct (Hfail a e Hin) as [Hv _]. unfold csucc in Hs. rewrite Hv in Hs. discriminate. }
+  split; [assumption|]. intros a Ha.
+  destruct (in_dec Nat.eq_dec a (map fst Q)) as [Hin|Hnin]; [assumption|].
+  rewrite (Hpend Hok (ex_intro _ a (conj Ha Hnin))) in Hs. discriminate.
 Qed.
